@@ -18,6 +18,16 @@ CHECKS = {
             "periodicity checked. Complete within the stated bounds.",
             "trusted: the 10-line list-expansion oracle; durations/offsets outside the alphabets are not covered",
             "DESIGN.md §4 C17"),
+    "C16": ("exhaustive enumeration of the full product of interval / angle-interval grids x operations x argument types "
+            "against exact rational (Interval) and guard-banded modular (AngleInterval) set semantics",
+            "All Interval methods named in the statement over a 9-letter end alphabet typed int and float (constructor order, "
+            "contains value/interval, overlaps, intersection, * / + - round) with exact Fraction oracles; AngleInterval "
+            "contains(value), contains(interval), shifting and constructor normalisation over every start on the pi/8 "
+            "(thorough pi/16) grid in [-2pi,2pi] x every length up to 2pi-1e-3 x float/numpy/int/off-grid queries. "
+            "Complete within those grids.",
+            "trusted: Fraction arithmetic; the 1e-9 guard band at angle-interval ends (either answer accepted there, "
+            "counted as guarded); values between grid points are represented by one off-grid letter per cell only",
+            "DESIGN.md §4 C16"),
 }
 
 NOT_YET = {}
